@@ -285,8 +285,12 @@ def trace_of(sseed, kind):
     with tempdir("ktt") as d:
         specs = gen.rand_specs(R, finite=(kind == "grid"), nonfixed=(kind == "bayes"))
         over = dict(max_epochs=R.randint(1, 6), factor=2, iterations=1) if kind == "hyperband" else {}
+        if kind == "bayes":
+            over = dict(max_trials=R.randint(4, 7), num_initial_points=2)
         o = gen.make_oracle(R, kind, specs, d, seed=R.choice([0, 5, R.randint(0, 999)]), **over)
-        tr = run_schedule(o, R, steps=R.randint(8, 40))
+        # tie-heavy scores: the winner among equal scores must not depend on hash ordering
+        tr = run_schedule(o, R, steps=R.randint(8, 40) if kind != "hyperband" else R.randint(30, 90),
+                          score_of=lambda R_, t: float(R_.choice([1, 1, 1, 2, 0.5])), outcomes=["C"] * 6 + ["INV", "FAIL"])
     return [e for e in tr if e[0] == "create"]
 
 
@@ -297,7 +301,7 @@ def run(seed, tier, n=None, subprocs=None):
                 "two-run / fresh-interpreter reproducibility as monitors; seeds include 0; non-trivial = scenario with a collision, an "
                 "exhaustion, a discovery or >= 3 new trials; distinct by hash of the lines / seed")
     n = n or (160 if tier == "quick" else 3000)
-    subprocs = subprocs if subprocs is not None else (2 if tier == "quick" else 12)
+    subprocs = subprocs if subprocs is not None else (3 if tier == "quick" else 15)
     R = random.Random(seed ^ 0xC06)
     all_lines, spans = [], []
     kinds4 = ("random", "grid", "hyperband", "bayes")
@@ -317,8 +321,6 @@ def run(seed, tier, n=None, subprocs=None):
                 lines, expect, doc = [], [], {"suite": "sampling", "mode": mode, "seed": sseed}
             else:
                 kind = kinds4[(i // 8) % 4]
-                if kind == "bayes" and tier == "quick":
-                    kind = "hyperband"
                 a, b = trace_of(sseed, kind), trace_of(sseed, kind)
                 if a != b:
                     j = next((j for j, (x, y) in enumerate(zip(a, b)) if x != y), -1)
@@ -340,7 +342,7 @@ def run(seed, tier, n=None, subprocs=None):
     # fresh interpreter, different PYTHONHASHSEED
     for k in range(subprocs):
         sseed = R.randrange(1 << 30)
-        kind = ("random", "hyperband", "grid", "random")[k % 4]
+        kind = ("hyperband", "random", "hyperband", "grid", "bayes")[k % 5]
         a = json.dumps(trace_of(sseed, kind), default=str)
         env = dict(os.environ, PYTHONHASHSEED=str(1 + (sseed % 1000)), KT_REPO=REPO)
         p = subprocess.run([sys.executable, "-c",
